@@ -254,6 +254,33 @@ func ParseSPSNALUnit(data []byte, parseVUIBeyondAspectRatio bool) (*SPS, error) 
 	return sps, reader.AccError()
 }
 
+// picSizeInMapUnits returns PicSizeInMapUnits = PicWidthInMbs * PicHeightInMapUnits (7-13, 7-16, 7-17).
+// pic_width_in_mbs_minus1 and pic_height_in_map_units_minus1 are not kept in the SPS: they are
+// recomputed from the cropped Width and Height and the cropping offsets.
+func (s *SPS) picSizeInMapUnits() uint {
+	var frameMbsOnly uint
+	if s.FrameMbsOnlyFlag {
+		frameMbsOnly = 1
+	}
+	width, height := s.Width, s.Height
+	if s.FrameCroppingFlag {
+		var cropUnitX, cropUnitY uint
+		switch s.ChromaFormatIDC {
+		case 0:
+			cropUnitX, cropUnitY = 1, 2-frameMbsOnly
+		case 1:
+			cropUnitX, cropUnitY = 2, 2*(2-frameMbsOnly)
+		case 2:
+			cropUnitX, cropUnitY = 2, 1*(2-frameMbsOnly)
+		default: // 3: other values are rejected by ParseSPSNALUnit when frame_cropping_flag is set
+			cropUnitX, cropUnitY = 1, 1*(2-frameMbsOnly)
+		}
+		width += (s.FrameCropLeftOffset + s.FrameCropRightOffset) * cropUnitX
+		height += (s.FrameCropTopOffset + s.FrameCropBottomOffset) * cropUnitY
+	}
+	return (width / 16) * (height / (16 * (2 - frameMbsOnly)))
+}
+
 // CpbDbpDelaysPresent signals if Cpb and Dbp can be found in Picture Timing SEI
 func (s *SPS) CpbDpbDelaysPresent() bool {
 	if s.VUI == nil {
